@@ -49,3 +49,14 @@ def p_remaining(I, args, kwargs, node):
 
 
 PRIMS['remaining'] = p_remaining
+
+
+def p_dec(I, args, kwargs, node):
+    """spec: dec(encoding, data) = data.decode(encoding)"""
+    enc, data = args
+    if _m.is_concrete(enc):
+        _m.decode_axioms(I, _m.concretise(enc), data.t)
+    return VStr(_m.f_decode(_m.strterm(enc), data.t))
+
+
+PRIMS['dec'] = p_dec
